@@ -119,6 +119,7 @@ class Verifier:
         free = con.opts.get('free')
         if free:
             pf = ex.new_frame(st, info.parent, None, info.owner, info.module)
+            pf.locals_set = set(pf.locals_set) | set(self.free_env)     # free variables may live further out
             parent_fid = pf.fid
             for n, v in self.free_env.items():
                 st.envs[pf.fid][n] = v
